@@ -386,11 +386,13 @@ impl Profile {
 pub struct Gen<'a> {
     pub rng: Rng,
     pub edges: &'a Edges,
+    /// index of the empty key in the pool of the history being generated, if it has one
+    pub empty_key: Option<usize>,
 }
 
 impl<'a> Gen<'a> {
     pub fn new(seed: u64, edges: &'a Edges) -> Gen<'a> {
-        Gen { rng: Rng::new(seed), edges }
+        Gen { rng: Rng::new(seed), edges, empty_key: None }
     }
 
     pub fn val_len(&mut self, p: &Profile) -> u32 {
@@ -505,6 +507,12 @@ impl<'a> Gen<'a> {
     }
 
     fn batch_keys(&mut self, pool: usize, repeats: bool) -> Vec<usize> {
+        // batches that consist of the empty key only (once, or repeated where repeats are allowed)
+        if let Some(e) = self.empty_key {
+            if self.rng.chance(1, 10) {
+                return if repeats && self.rng.chance(1, 2) { vec![e, e] } else { vec![e] };
+            }
+        }
         let n = match self.rng.below(6) {
             0 => 0,
             1 => 1,
@@ -526,6 +534,7 @@ impl<'a> Gen<'a> {
     pub fn history<K: Kt>(&mut self, p: &Profile, cfg: Cfg, origin: &str) -> History {
         let keys = self.keys::<K>(p);
         let pool = keys.len().max(1);
+        self.empty_key = keys.iter().position(|k| k.is_empty());
         let mut ops = Vec::with_capacity(p.n_ops);
         let basic = p.w_put + p.w_del + p.w_read + p.w_len;
         // extra groups are per-mille of all ops
